@@ -50,6 +50,16 @@ pub fn kb_source(depth: usize) -> Vec<String> {
     // succeeds only on the last combination
     let last: String = vars.iter().map(|n| format!("{} == 12", n)).collect::<Vec<_>>().join(", ");
     v.push(format!("late :- {}, {}.", gen, last));
+    // a search of a few seconds that then succeeds; it is driven by next_solution (no timer)
+    if depth >= 2 {
+        let mv: Vec<String> = (0..depth - 1).map(|i| format!("$M{}", i)).collect();
+        let mgen: String = mv.iter().map(|n| format!("num({})", n)).collect::<Vec<_>>().join(", ");
+        v.push(format!("spinm :- {}, {} > 100.", mgen, mv[0]));
+        v.push("med($X) :- spinm, $X = never.".into());
+        v.push("med($X) :- spinm, $X = never.".into());
+        v.push("med($X) :- spinm, $X = never.".into());
+        v.push("med(done).".into());
+    }
     // answers first, then a long search without answers
     v.push("slow($X) :- color($X).".into());
     v.push("slow($X) :- spin, $X = never.".into());
@@ -67,9 +77,11 @@ pub fn load_kb(depth: usize) -> KnowledgeBase {
     kb
 }
 
-pub const QUERIES: [&str; 20] = ["t1($X)", "t2($A, $B)", "t3($X)", "t4($X, $L)", "t5($N)", "t6($X)", "t7($X)", "pair($P, $Q)", "num(13)",
+pub const QUERIES: [&str; 21] = ["t1($X)", "t2($A, $B)", "t3($X)", "t4($X, $L)", "t5($N)", "t6($X)", "t7($X)", "pair($P, $Q)", "num(13)",
                                  "slow($S)", "trap($T)", "mixed($M)",
-                                 "t8($X)", "t9($X)", "t10($L)", "t11($S)", "t12($N)", "t13($X)", "t14($X)", "t15($X, $Y)"];
+                                 "t8($X)", "t9($X)", "t10($L)", "t11($S)", "t12($N)", "t13($X)", "t14($X)", "t15($X, $Y)", "med($D)"];
+/// index of the query that searches for a few seconds without a timer (driven by next_solution only)
+pub const MED: usize = 20;
 pub const LAST_SLOW: usize = 11;
 pub const FIRST_SLOW: usize = 9;
 
@@ -235,7 +247,7 @@ fn step_alphabet() -> Vec<(usize, Driver)> {
     vec![(0, Driver::Ns), (0, Driver::Reask), (1, Driver::Ns), (1, Driver::SolveAll), (2, Driver::Solve(3)), (3, Driver::Abandon(2)), (4, Driver::SolveAll),
          (5, Driver::Ns), (6, Driver::Reask), (7, Driver::Abandon(1)), (7, Driver::SolveAll), (8, Driver::Solve(2)),
          (9, Driver::SolveAll), (9, Driver::Solve(5)), (10, Driver::Solve(1)), (11, Driver::SolveAll),
-         (12, Driver::Ns), (13, Driver::SolveAll), (13, Driver::Abandon(1)), (14, Driver::Solve(2)), (15, Driver::Ns), (16, Driver::SolveAll), (17, Driver::Reask), (18, Driver::Ns), (19, Driver::SolveAll)]
+         (12, Driver::Ns), (13, Driver::SolveAll), (13, Driver::Abandon(1)), (14, Driver::Solve(2)), (15, Driver::Ns), (16, Driver::SolveAll), (17, Driver::Reask), (18, Driver::Ns), (19, Driver::SolveAll), (MED, Driver::Ns)]
 }
 
 impl C22 {
@@ -254,7 +266,7 @@ impl C22 {
             let mut h = vec![];
             for _ in 0..n {
                 let q = r.below(QUERIES.len());
-                let d = if q >= FIRST_SLOW && q <= LAST_SLOW { if r.chance(1, 2) { Driver::SolveAll } else { Driver::Solve(r.range(1, 5)) } }
+                let d = if q == MED { Driver::Ns } else if q >= FIRST_SLOW && q <= LAST_SLOW { if r.chance(1, 2) { Driver::SolveAll } else { Driver::Solve(r.range(1, 5)) } }
                         else { match r.below(5) { 0 => Driver::Ns, 1 => Driver::Abandon(r.range(1, 3)), 2 => Driver::Reask, 3 => Driver::Solve(r.range(1, 6)), _ => Driver::SolveAll } };
                 h.push((q, d));
             }
@@ -268,9 +280,9 @@ impl C22 {
 impl Workload for C22 {
     fn total(&self) -> u64 { self.hist.len() as u64 }
     fn rule(&self) -> String {
-        format!("one fresh process per history; histories: all ordered pairs over a 25-step alphabet (20 queries incl. not/cut/print with constant and variable-held formats/append/count/include/arithmetic/recursion and three that exceed the 1 s limit; drivers next_solution to exhaustion, k answers then abandon, re-ask 3x after exhaustion, solve x n, solve_all), all triples over a 6-step sub-alphabet, plus seeded random histories of 3-6 steps; oracle: every step's answers and output equal those of the same (query, driver) run as the first action of a fresh process; slow searches are sized at run time (12^{} combinations); non-trivial when the history contains a timed-out, abandoned or re-asked step before its last step; distinct by history text", self.depth)
+        format!("one fresh process per history; histories: all ordered pairs over a 26-step alphabet (21 queries incl. one that searches for seconds without a timer and incl. not/cut/print with constant and variable-held formats/append/count/include/arithmetic/recursion and three that exceed the 1 s limit; drivers next_solution to exhaustion, k answers then abandon, re-ask 3x after exhaustion, solve x n, solve_all), all triples over a 6-step sub-alphabet, plus seeded random histories of 3-6 steps; oracle: every step's answers and output equal those of the same (query, driver) run as the first action of a fresh process; slow searches are sized at run time (12^{} combinations); non-trivial when the history contains a timed-out, abandoned or re-asked step before its last step; distinct by history text", self.depth)
     }
-    fn exhaustive_part(&self) -> Option<String> { Some("all 625 ordered step pairs and all 216 triples over the sub-alphabet".into()) }
+    fn exhaustive_part(&self) -> Option<String> { Some("all 676 ordered step pairs and all 216 triples over the sub-alphabet".into()) }
     fn describe(&mut self, idx: u64) -> String { json::obj(&[("history", json::esc(&self.show(&self.hist[idx as usize].clone())))]) }
     fn run(&mut self, idx: u64) -> Outcome {
         let h = self.hist[idx as usize].clone();
@@ -329,24 +341,71 @@ impl C23 {
         for _ in 0..reps {
             for q in FIRST_SLOW..=LAST_SLOW { slow.push((q, Driver::SolveAll)); slow.push((q, Driver::Solve(6))); }
         }
+        // a query prepared (built, node made) *before* another query times out, asked afterwards
+        for _ in 0..reps { for f in [0usize, 2, 7, 14] { slow.push((1000 + f, Driver::Solve(2))); slow.push((1000 + f, Driver::SolveAll)); } }
         C23 { depth, seed, n_fast: if tier == Tier::Quick { 12_000 } else { 150_000 }, slow, kb: load_kb(depth) }
+    }
+}
+
+impl C23 {
+    /// The fast query `f` is built and its solution node made; then `slow($S)` is built and
+    /// driven by solve_all until it times out; then the prepared node is asked. The fast
+    /// search finishes in microseconds and must be reported with its true answers.
+    fn prepared_case(&mut self, f: usize, d: &Driver, k: usize) -> Outcome {
+        let mut out = Outcome::new(hash_str(&format!("prepared {} {} {}", f, d.code(), k)));
+        out.nontrivial = true;
+        out.sample = json::obj(&[("prepared_query", json::esc(QUERIES[f])), ("driver", json::esc(&d.code())), ("then", json::esc("slow($S) via solve_all until it times out, then the prepared node is asked"))]);
+        let kb = &self.kb;
+        let r = guarded(|| {
+            let _ = take_output();
+            // the truth for the prepared query: the same query in a run of its own
+            let truth = run_step(kb, QUERIES[f], d);
+            let fq = Rc::new(parse_query(QUERIES[f]).expect("query"));
+            let fnode = make_base_node(Rc::clone(&fq), kb);
+            let slow = run_step(kb, QUERIES[FIRST_SLOW], &Driver::SolveAll);
+            let _ = take_output();
+            let t0 = Instant::now();
+            let mut got: Vec<String> = vec![];
+            match d {
+                Driver::SolveAll => { for s in solve_all(Rc::clone(&fnode)) { got.push(canon_tokens(&s)); } }
+                Driver::Solve(n) => { for _ in 0..*n { let s = solve(Rc::clone(&fnode)); let stop = s == "No more." || s == TIMEOUT_MSG; got.push(canon_tokens(&s)); if stop { break; } } }
+                _ => {}
+            }
+            let ms = t0.elapsed().as_millis();
+            let output = take_output();
+            (truth, slow, got, ms, output)
+        });
+        let (truth, slow, got, ms, output) = match r { Ok(x) => x, Err(p) => { out.violate(format!("panic-prepared|{}", QUERIES[f]), json::obj(&[("kind", json::esc("panic")), ("detail", json::esc(&p.msg))])); return out; } };
+        if !slow.answers.iter().any(|a| a == TIMEOUT_MSG) { out.verdict = Verdict::Inconclusive("the slow query did not time out".into()); return out; }
+        out.count("timer_fired", 1);
+        let wit = |kind: &str| json::obj(&[("kind", json::esc(kind)), ("prepared_query", json::esc(QUERIES[f])), ("driver", json::esc(&d.code())), ("returned", json::strs(&got)), ("expected", json::strs(&truth.answers)), ("elapsed_ms", ms.to_string())]);
+        if got.iter().any(|s| s == TIMEOUT_MSG) {
+            if ms >= 1000 { out.verdict = Verdict::Inconclusive(format!("the prepared query really took {} ms (machine stall)", ms)); return out; }
+            out.violate(format!("prepared-timeout|{}|{}", QUERIES[f], d.code()), wit("a search that finished within the limit is reported as timed out (query prepared before another query timed out)")); return out;
+        }
+        if got != truth.answers || output != truth.output {
+            out.violate(format!("prepared-answers|{}|{}", QUERIES[f], d.code()), wit("a query prepared before another query timed out gives other answers afterwards")); return out;
+        }
+        out.count("prepared_queries_answered_correctly_after_a_timeout", 1);
+        out
     }
 }
 
 impl Workload for C23 {
     fn total(&self) -> u64 { self.n_fast + self.slow.len() as u64 }
     fn rule(&self) -> String {
-        format!("{} fast cases: generated programs of the C01 corpus, solve_all and repeated solve under the real 1 s timer thread, compared with the reference answer sequence (complete, no timeout message); {} slow cases: three queries whose search is sized at run time to exceed the limit several times over (answers first then a long silent search; a not(...) over a search that succeeds only at its very end, so that a stopped search would fabricate answers), driven by solve_all and repeated solve while the other cores run the same workload; oracle: (a) every returned string is the next element of the true answer sequence, (b) no timeout message => sequence complete, (c) timeout message => monotonic elapsed time >= 1000 ms, (d) a fast query reported as timed out with >= 1000 ms really elapsed is inconclusive (machine stall); non-trivial when the query has >= 2 answers or is a slow case; distinct by program/query text (+ repetition number for slow cases)",
+        format!("{} fast cases: generated programs of the C01 corpus, solve_all and repeated solve under the real 1 s timer thread, compared with the reference answer sequence (complete, no timeout message); {} slow cases (incl. 8 per repetition in which a fast query is prepared - built, node made - before another query times out, and asked afterwards: true answers, no timeout): three queries whose search is sized at run time to exceed the limit several times over (answers first then a long silent search; a not(...) over a search that succeeds only at its very end, so that a stopped search would fabricate answers), driven by solve_all and repeated solve while the other cores run the same workload; oracle: (a) every returned string is the next element of the true answer sequence, (b) no timeout message => sequence complete, (c) timeout message => monotonic elapsed time >= 1000 ms, (d) a fast query reported as timed out with >= 1000 ms really elapsed is inconclusive (machine stall); non-trivial when the query has >= 2 answers or is a slow case; distinct by program/query text (+ repetition number for slow cases)",
                 self.n_fast, self.slow.len())
     }
     fn describe(&mut self, idx: u64) -> String {
         if idx < self.n_fast { case_json(&random_case(self.seed, 123, idx, Feat { fail: true, anon: true, builtins: true, not: true, cut: true, ..Feat::default() })) }
-        else { let (q, d) = &self.slow[(idx - self.n_fast) as usize]; json::obj(&[("query", json::esc(QUERIES[*q])), ("driver", json::esc(&d.code())), ("depth", self.depth.to_string())]) }
+        else { let (q, d) = &self.slow[(idx - self.n_fast) as usize]; let q = &(if *q >= 1000 { *q - 1000 } else { *q }); json::obj(&[("query", json::esc(QUERIES[*q])), ("driver", json::esc(&d.code())), ("depth", self.depth.to_string())]) }
     }
     fn run(&mut self, idx: u64) -> Outcome {
         if idx >= self.n_fast {
             let k = (idx - self.n_fast) as usize;
             let (q, d) = self.slow[k].clone();
+            if q >= 1000 { return self.prepared_case(q - 1000, &d, k); }
             let mut out = Outcome::new(hash_str(&format!("slow {} {} {}", q, d.code(), k)));
             out.nontrivial = true;
             out.sample = json::obj(&[("query", json::esc(QUERIES[q])), ("driver", json::esc(&d.code())), ("search_space", json::esc(&format!("12^{}", self.depth)))]);
